@@ -87,6 +87,14 @@ Section P.
     rewrite (no_std_inst _ _ _ Hok Hg). reflexivity.
   Qed.
 
+  Lemma is_std_valid iface : is_std iface = true -> C10.Model.validate_interface iface = true.
+  Proof.
+    unfold is_std, std_ifaces. cbn [existsb]. intro H.
+    apply orb_true_iff in H as [H|H]; [apply lbeq_true in H; rewrite <- H; vm_compute; reflexivity|].
+    apply orb_true_iff in H as [H|H]; [apply lbeq_true in H; rewrite <- H; vm_compute; reflexivity|].
+    apply orb_true_iff in H as [H|H]; [apply lbeq_true in H; rewrite <- H; vm_compute; reflexivity|discriminate].
+  Qed.
+
   (* ================================================================ meeting an expectation *)
   Lemma meets_any_error nr root e c :
     c_noreply c = nr -> meets (quiet nr root XErrAny) (finish c [] [] (RErr e None), root).
@@ -201,12 +209,7 @@ Section P.
     2:{ destruct (registered root path iface) as [i|] eqn:Hr.
         - apply (registered_valid _ _ _ _ Hok) in Hr as [Hr _]. congruence.
         - assert (Hs : is_std iface = false).
-          { unfold is_std, std_ifaces. cbn [existsb]. destruct (lbeq _ iface) eqn:E1.
-            - apply lbeq_true in E1. subst. discriminate.
-            - destruct (lbeq (id_name intro_desc) iface) eqn:E2.
-              + apply lbeq_true in E2. subst. discriminate.
-              + destruct (lbeq (id_name props_desc) iface) eqn:E3; [|reflexivity].
-                apply lbeq_true in E3. subst. discriminate. }
+          { destruct (is_std iface) eqn:E; [|reflexivity]. apply is_std_valid in E. congruence. }
           unfold is_std in Hs. rewrite Hs. apply meets_any_error_sent. }
     unfold of_presult, props_get_all. rewrite lookup_registered, Hg.
     destruct (registered root path iface) as [i|] eqn:Hr.
@@ -294,7 +297,7 @@ Section P.
     assert (Hge : getter_error bh i p sent = None).
     { destruct (getter_error bh i p sent) eqn:E; [|reflexivity]. exfalso. apply Hcl. right.
       repeat split; auto. congruence. }
-    unfold getter_error in Hge. cbn [in_desc]. rewrite Hge.
+    unfold getter_error in Hge. unfold iname. cbn [in_desc]. rewrite Hge.
     rewrite (content_id _ _ Hty Htv).
     cbn [sr_log sr_reply sr_signals sr_vals pr_log pr_reply pr_signals pr_root app].
     unfold meets, finish, flagged, changed_signal; cbn; destruct nr; cbn; repeat split; auto.
